@@ -16,7 +16,7 @@ MAX_BYTES = 8192
 
 
 def mval(model, t):
-    v = model.eval(t, model_completion=True)
+    v = model.eval(t, model_completion=True) if model is not None else z3.simplify(t)
     if z3.is_int_value(v):
         return v.as_long()
     if z3.is_rational_value(v):
@@ -136,6 +136,7 @@ def session_state_request(S, model):
     f = S.fsm.f
     st = {'st': ev(S.st), 'H': ev(S.H), 'KA': ev(S.KA), 'allow_auto': ev(S.allow_auto), 'crc': ev(S.crc),
           'with_protocol': S.P is not None, 'peering_status': ev(S.peering.f['status']),
+          'peer_id': ev(S.peer_id0), 'bgp_id': ev(S.pre['peering.bgp_id']),
           'conf': {'cfgH': ev(S.cfgH), 'cr_t': ev(S.cr_t), 'ih_t': ev(S.ih_t), 'do_t': ev(S.do_t), 'cfgKA': ev(S.cfgKA),
                    'local_as': ev(S.local_as), 'remote_as': ev(S.remote_as), 'now': float(ev(SNum(S.now))),
                    'rib': ev(S.rib)},
@@ -171,7 +172,7 @@ def heap_view(S, model, effects, updates=None, havoc=None):
 
     def val(cont, key):
         v = rd(cont, key)
-        if v is DC or isinstance(v, Any):
+        if v is DC or isinstance(v, Any) or has_havoc(v):
             return '<dont-care>'
         return ev(v)
     fsm = S.fsm
@@ -180,7 +181,13 @@ def heap_view(S, model, effects, updates=None, havoc=None):
     P = rd(fsm, 'protocol')
     v['protocol_none'] = P is None
     for sh, t in S.timers.items():
-        v['timers'][sh] = {'status': val(t, 'status'), 'active': val(t, '_active'), 'deadline': val(t, '_deadline')}
+        if '_active' in t.f:
+            v['timers'][sh] = {'status': val(t, 'status'), 'active': val(t, '_active'), 'deadline': val(t, '_deadline')}
+        else:
+            dc = t.f.get('delayed_call')
+            act = bool(dc is not None and not dc.f['called'] and not dc.f['cancelled'])
+            v['timers'][sh] = {'status': val(t, 'status'), 'active': act,
+                               'deadline': (ev(dc.f['time']) if act else '<dont-care>')}
     if S.P is not None:
         v.update({'tr_connected': val(S.transport, 'connected'), 'tr_disconnecting': val(S.transport, 'disconnecting'),
                   'P_disconnected': val(S.P, 'disconnected'), 'rbuf': val(S.P, '_receive_buffer'),
@@ -193,7 +200,10 @@ def heap_view(S, model, effects, updates=None, havoc=None):
     v['reports'] = []
     for e in effects:
         if e[0] == 'Write':
-            v['writes'].append('<dont-care>' if isinstance(e[2], Any) else binascii.b2a_hex(ev(e[2])).decode())
+            if isinstance(e[2], Any):
+                v['writes'].append(e[2])
+            else:
+                v['writes'].append(binascii.b2a_hex(ev(e[2])).decode())
         elif e[0] == 'LoseConnection':
             v['lose_calls'] += 1
         elif e[0] == 'ConnectTCP':
@@ -201,6 +211,24 @@ def heap_view(S, model, effects, updates=None, havoc=None):
         elif e[0] == 'Report':
             v['reports'].append(e[1])
     return v
+
+
+def has_havoc(v):
+    """the value mentions a symbol introduced by a contract's don't-care (havoc): nothing is predicted"""
+    t = v.t if isinstance(v, (SNum, SBool)) else None
+    if t is None:
+        return False
+    stack, seen = [t], set()
+    while stack:
+        e = stack.pop()
+        if e.get_id() in seen:
+            continue
+        seen.add(e.get_id())
+        if z3.is_const(e) and e.decl().kind() == z3.Z3_OP_UNINTERPRETED and str(e).startswith(('hvi!', 'hvb!')):
+            return True
+        if z3.is_app(e):
+            stack.extend(e.children())
+    return False
 
 
 def compare_views(exp, obs, path=''):
@@ -228,7 +256,18 @@ def compare_views(exp, obs, path=''):
         if k == 'rbuf' and isinstance(e, (bytes, bytearray)):
             e = binascii.b2a_hex(e).decode()
         if k == 'writes':
-            if len(e) != len(o) or any(a != '<dont-care>' and a != b for a, b in zip(e, o)):
+            bad = len(e) != len(o)
+            if not bad:
+                for a, b in zip(e, o):
+                    if isinstance(a, Any):
+                        if a.pred is not None:
+                            r = a.pred(binascii.a2b_hex(b))
+                            r = z3.simplify(r) if z3.is_expr(r) else r
+                            if r is False or (z3.is_expr(r) and z3.is_false(r)):
+                                bad = True
+                    elif a != b:
+                        bad = True
+            if bad:
                 diffs.append('%swrites: expected %r observed %r' % (path, e, o))
             continue
         if isinstance(e, float) or isinstance(o, float):
